@@ -439,6 +439,12 @@ func serverWireThenDisconnect(name string, natt int, pollDelay time.Duration, bo
 // serverWireFramesThenDisconnect: the same over a transport that writes packet by packet (rig R1 in frame-by-frame
 // mode, as WebSocket does): whoever else writes to the connection while its sender is inside a batch lands
 // between the frames of a packet.
+//
+// The bound has to be 4 here, not 3: Disconnect(true) blocks once on the way (onClose waits for the disconnecting
+// handlers through a helper goroutine), and every hand-over around a blocked thread that does not go to the
+// default thread costs a deviation as well - sender taken out of turn (1), back to the closer between two frames
+// (2), the helper instead of the sender while the closer waits (3), the closer instead of the sender afterwards
+// (4). VERIF_DUMP_TRACES showed the three-deviation search ending exactly one hand-over short of it.
 func serverWireFramesThenDisconnect(name string, natt int, bound int) *vx.Scenario {
 	sc := &vx.Scenario{Name: name, Bound: bound, Horizon: 10 * time.Second}
 	sc.Body = func(e *vsched.Exec) func() vx.Result {
@@ -776,7 +782,7 @@ func scenarios(tier string) []*vx.Scenario {
 		serverWirePolling("server-wire-polling/2x2-mixed-no-gaps", [][]int{{2, 0}, {0, 1}}, 0, 0, bw-2),
 		serverWireThenDisconnect("server-wire-polling/emit-2-attachments-then-Disconnect(true)-slow-poller", 2, time.Second, 1),
 		serverWireThenDisconnect("server-wire-polling/emit-2-attachments-then-Disconnect(true)", 2, 0, bw-2),
-		serverWireFramesThenDisconnect("server-wire/frame-by-frame/emit-2-attachments-then-Disconnect(true)", 2, bw-1),
+		serverWireFramesThenDisconnect("server-wire/frame-by-frame/emit-2-attachments-then-Disconnect(true)", 2, bw),
 		clientWire("client-wire/2x1-binary", [][]int{{1}, {2}}, bw-2),
 		clientWire("client-wire/2x2-mixed", [][]int{{0, 2}, {1, 0}}, bw-2),
 		clientWireConnecting("client-wire-connecting/1x3", [][]int{{0, 1, 0}}, bw-2),
